@@ -58,14 +58,28 @@ class CtlExecutor(cf.Executor):
         fut = CtlFuture(ev)
         with self.lock:
             self.jobs.append((fut, ev, fn, args, kwargs))
-            if len(self.jobs) == len(self.order):
+            if len(self.jobs) == len(self.order) and self.thread is None:
                 self.thread = threading.Thread(target=self._drive, daemon=True)
                 self.thread.start()
+            elif len(self.jobs) == 1:
+                # watchdog: code under test that submits a different number of jobs must not hang the check
+                threading.Timer(1.5, self._late_start).start()
         return fut
 
+    def _late_start(self):
+        with self.lock:
+            if self.thread is None:
+                n = len(self.jobs)
+                self.order = [t for t in self.order if t <= n] + [t for t in range(1, n + 1) if t not in self.order]
+                self.thread = threading.Thread(target=self._drive, daemon=True)
+                self.thread.start()
+
     def _drive(self):
-        for t in self.order:
+        done = set()
+
+        def run(t):
             fut, ev, fn, args, kwargs = self.jobs[t - 1]
+            done.add(t)
             try:
                 res = fn(*args, **kwargs)
                 self.item_of[id(res)] = t
@@ -74,8 +88,21 @@ class CtlExecutor(cf.Executor):
             except BaseException as ex:  # noqa
                 fut.set_exception(ex)
             ev.wait(10)
+        for t in list(self.order):
+            if t <= len(self.jobs):
+                run(t)
+        # code under test may submit more (or fewer) jobs than the prescribed order has entries: never leave a future
+        # pending - run the rest in submission order until the executor is shut down
+        import time as _t
+        while not getattr(self, "_closed", False):
+            rest = [t for t in range(1, len(self.jobs) + 1) if t not in done]
+            if rest:
+                run(rest[0])
+            else:
+                _t.sleep(0.01)
 
     def shutdown(self, wait=True, **kw):
+        self._closed = True
         if self.thread is not None and wait:
             self.thread.join(20)
 
